@@ -215,11 +215,19 @@ func safeRun[C any](run func(C) Result, c C) (res Result) {
 }
 
 func trimStack(b []byte) string {
+	// keep the frames of the code under test, drop the harness and runtime noise
+	var keep []string
 	lines := strings.Split(string(b), "\n")
-	if len(lines) > 40 {
-		lines = lines[:40]
+	for i := 0; i+1 < len(lines); i++ {
+		if strings.Contains(lines[i+1], "/repo/") || strings.Contains(lines[i+1], "openziti/storage") {
+			keep = append(keep, lines[i], lines[i+1])
+			i++
+		}
+		if len(keep) >= 16 {
+			break
+		}
 	}
-	return strings.Join(lines, "\n")
+	return strings.Join(keep, "\n")
 }
 
 func failureDir(id string) string {
